@@ -97,7 +97,7 @@ func heldBurst(w *W, ps *plans, uri, key string, in c07Inst, n int, a ans) (res 
 func c07History(r *hx.Run, w *W, ps *plans, rnd *rand.Rand, in c07Inst, hi int) {
 	uri := fmt.Sprintf("/c07/%d/%d", r.Seed, hi)
 	key := "GET c07.example " + uri
-	m := &entryModel{HFP: in.p}
+	m := &entryModel{HFP: in.p, TolerateStale: true}
 	periods := 3 + rnd.Intn(4)
 	var trace []interface{}
 	defer ps.del(uri)
